@@ -231,28 +231,33 @@ Definition lv_get (lv : lval) : bytes * N * N :=
   (fst (lv_latest lv), snd (lv_latest lv), lv_history_count lv).
 Definition get (n : node) (k : bytes) : option (bytes * N * N) := option_map lv_get (lookup n k).
 
-(* leafValue.lastUpdateBetween.  [h0] = entries of block 0 of the history log: the chain of
-   every key ends with prevOff = 0, and the outer loop of the Go code runs hCount (= number of
-   ENTRIES) iterations over BLOCKS, so when a block holds more than one entry the loop walks past
-   the key's own chain into block 0 (whoever owns it), again and again. *)
+(* leafValue.lastUpdateBetween (as of e30fc04).  The outer loop reads one history BLOCK per
+   iteration and runs while skippedUpdates < hCount, so it ends with the key's own chain.
+   [h0] = entries of block 0 of the history log, which is where prevOff of the oldest own block
+   points: before e30fc04 the loop ran hCount iterations over blocks and walked into it; it is kept
+   as the default of [nth] so that a loop that again leaves the chain shows up as a disagreement.
+   [iters] is fuel (hCount suffices: every block holds at least one entry). *)
 Inductive bres := BFound (r : bytes * N * N) | BNotFound | BCont (skipped : N).
 Fixpoint scan_block (i f hc skipped : N) (b : list tv) : bres :=
   match b with
   | [] => BCont skipped
   | (v, t) :: r =>
       if t <? i then BNotFound
-      else if t <=? f then BFound (v, t, (hc + 2 ^ 64 - skipped) mod 2 ^ 64)
+      else if t <=? f then BFound (v, t, hc - skipped)   (* no wrap-around: skipped < hCount here *)
       else scan_block i f hc (skipped + 1) r
   end.
 Fixpoint scan_blocks (iters idx : nat) (blocks : list (list tv)) (h0 : list tv)
          (i f hc skipped : N) : option (bytes * N * N) :=
   match iters with
   | O => None
-  | S n => match scan_block i f hc skipped (nth idx blocks h0) with
-           | BFound r => Some r
-           | BNotFound => None
-           | BCont s => scan_blocks n (S idx) blocks h0 i f hc s
-           end
+  | S n =>
+      if skipped <? hc then
+        match scan_block i f hc skipped (nth idx blocks h0) with
+        | BFound r => Some r
+        | BNotFound => None
+        | BCont s => scan_blocks n (S idx) blocks h0 i f hc s
+        end
+      else None
   end.
 Fixpoint scan_tvs (i f hcount : N) (j : N) (tvs : list tv) : bres :=
   match tvs with
